@@ -130,7 +130,10 @@ Theorem exact_replay_records_pins jf sf cf w e top plist force rd ls out w' cfg 
 Proof. apply replay_records. Qed.
 Print Assumptions exact_replay_records_pins.
 
-(* FULL STATEMENT (DESIGN C17):
+(* (The full statement is proved at the end of this file: exact_reproduces, where [covered] is derived from C01's
+   closure theorem for a conflict-free build by the composed model; this theorem is kept because it asks nothing of
+   the build.)
+   FULL STATEMENT (DESIGN C17):
      conflict_free w r -> w included in w' (recorded versions still declared, tags and newer versions
      arbitrary) -> recorded (request exact w' (expand ...)) = recorded env
    where env is the environment the build request r produced.
@@ -645,3 +648,178 @@ Proof.
              H14 H15 H16 H17 H18 H19 H20 H21 H22 H23).
 Qed.
 Print Assumptions exact_reproduces.
+
+(* ---- the hypotheses are inhabited ----
+   Three products: app 1.0 requires lib and asks for extra optionally; extra 1.0 requires lib; every table ends with
+   the implicit optional line; current: lib 1.0, extra 1.0, app 1.0.
+   BUILD   setup app  from the empty environment, by the composed model (resolver included): app, lib, extra at 1.0.
+   EXPAND  the table of app, with the lists Table.dependencies gives for lib 1.0 and extra 1.0.
+   LATER   lib 2.0 has been declared and current moved to it; app's table is the expanded one.
+   REPLAY  through Model/Setup.v with the forced decisions: lib 1.0 again. *)
+From Eupsv Require Import Model.SetupWf Proofs.SetupWf Proofs.SetupExample Proofs.SetupFullExample Generated.Config.
+From Eupsv Require Proofs.Resolve.
+
+Definition rworld : world :=
+  [ xprod "lib" "1.0" [ASet (lit "LIB_HOME") (lit "/s/lib/1.0"); ASetup true (lit "implicitProducts") false];
+    xprod "extra" "1.0" [ASetup false (lit "lib") false; ASet (lit "EXTRA_HOME") (lit "/s/extra/1.0");
+                         ASetup true (lit "implicitProducts") false];
+    xprod "app" "1.0" [ASetup false (lit "lib") false; ASetup true (lit "extra") false;
+                       ASet (lit "APP_HOME") (lit "/s/app/1.0"); ASetup true (lit "implicitProducts") false] ].
+Definition rfw : fworld :=
+  {| fw_products := rworld; fw_lines := [];
+     fw_tags := [ (lit "lib", lit "current", lit "1.0"); (lit "extra", lit "current", lit "1.0");
+                  (lit "app", lit "current", lit "1.0") ] |}.
+Definition rorder : list str := [lit "implicitProducts"; lit "lib"; lit "extra"; lit "app"].
+Definition rD (n : str) : option str :=
+  if str_eqb n (lit "app") then Some (lit "1.0")
+  else if str_eqb n (lit "lib") then Some (lit "1.0")
+  else if str_eqb n (lit "extra") then Some (lit "1.0") else None.
+Definition rbuild := request_full_simple rfw ex_cfg default_config ex_flavors 20 ex_st0 (lit "app") None true false.
+Definition rstb : state := match rbuild with Ok (Some st, _) => st | _ => ex_st0 end.
+Definition rtr : list decision := match rbuild with Ok (_, tr) => tr | _ => [] end.
+Definition rraw : rawdeps :=
+  [ (lit "lib", lit "1.0", [ {| d_name := lit "implicitProducts"; d_optional := true; d_depth := 1 |} ]);
+    (lit "extra", lit "1.0", [ {| d_name := lit "lib"; d_optional := false; d_depth := 1 |};
+                               {| d_name := lit "implicitProducts"; d_optional := true; d_depth := 2 |};
+                               {| d_name := lit "implicitProducts"; d_optional := true; d_depth := 1 |} ]) ].
+Definition rline_lib : sline := sl false "lib" [] None None "setupRequired(lib)".
+Definition rline_extra : sline := sl true "extra" [] None None "setupOptional(extra)".
+Definition rlines : list tline :=
+  [ LSetup rline_lib; LSetup rline_extra; LOther (lit "envSet(APP_HOME, ${PRODUCT_DIR})") ].
+Definition rout : list oline :=
+  match expand rworld (s_env rstb) (lit "app") [] false rraw rlines with Ok out => out | Err _ => [] end.
+Definition rinterp (t : str) : list action := [ASet (lit "APP_HOME") (lit "/s/app/1.0")].
+Definition rtable : list action :=
+  exact_actions rinterp (exact_view rout) ++ map absent_action [lit "implicitProducts"].
+(* the later database: lib 2.0 declared; the table of app 1.0 replaced by the expanded one *)
+Definition rworld' : world :=
+  [ xprod "lib" "2.0" [ASet (lit "LIB_HOME") (lit "/s/lib/2.0"); ASetup true (lit "implicitProducts") false];
+    xprod "app" "1.0" rtable ] ++ filter (fun p => negb (str_eqb (p_name p) (lit "app"))) rworld.
+(* ... as a database of the composed model: current has moved to lib 2.0; the lines of the exact block carry
+   their explicit versions *)
+Definition rfw' : fworld :=
+  {| fw_products := rworld';
+     fw_lines := [ (lit "app", lit "1.0", [li_v "1.0"; li_v "1.0"; no_info; no_info]) ];
+     fw_tags := [ (lit "lib", lit "current", lit "2.0"); (lit "extra", lit "current", lit "1.0");
+                  (lit "app", lit "current", lit "1.0") ] |}.
+(* ... and with the table as it was before the expansion, for comparison *)
+Definition rfw'' : fworld :=
+  {| fw_products := xprod "lib" "2.0" [ASet (lit "LIB_HOME") (lit "/s/lib/2.0"); ASetup true (lit "implicitProducts") false]
+                    :: rworld;
+     fw_lines := []; fw_tags := fw_tags rfw' |}.
+
+Example exact_reproduces_inhabited :
+  (* the build *)
+  WF2 (fw_products rfw) (dl_of rworld) (rank_of rorder) /\ c_max_depth ex_cfg = None /\
+  wf_db (db_of ex_cfg rfw) = true /\ (forall n, total_order_on vcmp_simple (names_of (db_of ex_cfg rfw) n)) /\
+  select_vro default_config (request_opts ex_cfg None) = Ok ex_vro /\ mem_entry EKeep ex_vro = false /\
+  conflict_free vcmp_simple vmatch_simple rfw ex_cfg default_config ex_flavors ex_vro (lit "app")
+                {| li_version := None; li_expr := None |} rD /\
+  nodollar_paths (fw_products rfw) (s_env ex_st0) /\ (forall m, alookup (setup_var m) (s_env ex_st0) = None) /\
+  request_full vcmp_simple vmatch_simple rfw ex_cfg default_config ex_flavors 20 ex_st0 (lit "app") None true false
+    = Ok (Some rstb, rtr) /\
+  (* the expansion *)
+  expand (fw_products rfw) (s_env rstb) (lit "app") [] false rraw rlines = Ok rout /\
+  lists_cover rfw rD (lit "app") rraw rlines /\
+  rD (lit "app") = Some (lit "1.0") /\
+  (* the later database and the replay *)
+  (exists ptop, find_pv rworld' (lit "app") (lit "1.0") = Some ptop /\
+     p_actions ptop = exact_actions rinterp (exact_view rout) ++ map absent_action [lit "implicitProducts"]) /\
+  (forall t, Forall simple_action (rinterp t)) /\
+  (forall n v o, In (n, v, o) (pins_of rout) ->
+     exists p, find_pv rworld' n v = Some p /\ Forall quiet_action (p_actions p)) /\
+  sane (lit "app") /\ (forall x, In x (pins_of rout) -> sane (pin_name x)) /\
+  NoDup (upper_str (lit "app") :: map (fun x => upper_str (pin_name x)) (pins_of rout)).
+Proof.
+  assert (P : pins_of rout = [(lit "lib", lit "1.0", false); (lit "extra", lit "1.0", true)]) by (vm_compute; reflexivity).
+  assert (Slib : sets_up rfw rD (lit "lib")).
+  { eapply (su_intro rfw rD (lit "lib") (lit "1.0")); [reflexivity|vm_compute; reflexivity|].
+    intros x j Hin. cbn in Hin. intuition discriminate. }
+  assert (Sextra : sets_up rfw rD (lit "extra")).
+  { eapply (su_intro rfw rD (lit "extra") (lit "1.0")); [reflexivity|vm_compute; reflexivity|].
+    intros x j Hin. cbn in Hin. destruct Hin as [E|[E|[E|[]]]]; try discriminate E. injection E as <- _. exact Slib. }
+  assert (Rlib : reach_ok rfw rD (lit "app") (lit "lib")).
+  { eapply (ro_dep rfw rD (lit "app") (lit "1.0") _ false (lit "lib") false (lit "lib"));
+      [reflexivity|vm_compute; reflexivity|now left|exact Slib|constructor]. }
+  assert (Rextra : reach_ok rfw rD (lit "app") (lit "extra")).
+  { eapply (ro_dep rfw rD (lit "app") (lit "1.0") _ true (lit "extra") false (lit "extra"));
+      [reflexivity|vm_compute; reflexivity|right; now left|exact Sextra|constructor]. }
+  split; [apply wf2_check_sound; vm_compute; reflexivity|]. split; [reflexivity|]. split; [vm_compute; reflexivity|].
+  split; [apply total_order_all; apply Proofs.Resolve.total_orderb_sound; vm_compute; reflexivity|].
+  split; [reflexivity|]. split; [reflexivity|]. split.
+  { split; [vm_compute; reflexivity|]. intros n v p _ Dn F. unfold rD in Dn.
+    destruct (str_eqb_spec n (lit "app")) as [->|N1].
+    { injection Dn as <-. vm_compute in F. injection F as <-. cbn. repeat split; vm_compute; reflexivity. }
+    destruct (str_eqb_spec n (lit "lib")) as [->|N2].
+    { injection Dn as <-. vm_compute in F. injection F as <-. cbn. repeat split; vm_compute; reflexivity. }
+    destruct (str_eqb_spec n (lit "extra")) as [->|N3]; [|discriminate].
+    injection Dn as <-. vm_compute in F. injection F as <-. cbn. repeat split; vm_compute; reflexivity. }
+  split; [apply nodollar_nil|]. split; [intro m; reflexivity|]. split; [vm_compute; reflexivity|].
+  split; [vm_compute; reflexivity|]. split.
+  { intros k RO Nk. destruct (reach_ok_assigned rfw rD (lit "app") k RO) as [->|[v [p [Dk _]]]]; [contradiction|].
+    unfold rD in Dk. destruct (str_eqb_spec k (lit "app")) as [->|N1]; [contradiction|].
+    destruct (str_eqb_spec k (lit "lib")) as [->|N2].
+    { exists rline_lib, (lit "1.0"). split; [now left|]. split; [discriminate|]. split; [exact Rlib|].
+      split; [reflexivity|now left]. }
+    destruct (str_eqb_spec k (lit "extra")) as [->|N3]; [|discriminate].
+    exists rline_extra, (lit "1.0"). split; [right; now left|]. split; [discriminate|]. split; [exact Rextra|].
+    split; [reflexivity|now left]. }
+  split; [reflexivity|]. split; [eexists; split; vm_compute; reflexivity|].
+  split. { intro t. constructor; [|constructor]. apply aset_literal_ok; reflexivity. }
+  split.
+  { intros n v o I. rewrite P in I. simpl in I.
+    destruct I as [I|[I|[]]]; inversion I; subst; eexists; (split; [vm_compute; reflexivity|]).
+    - constructor; [apply aset_literal_ok; reflexivity|]. constructor; [exact Logic.I|constructor].
+    - constructor; [exact Logic.I|]. constructor; [apply aset_literal_ok; reflexivity|].
+      constructor; [exact Logic.I|constructor]. }
+  split; [reflexivity|]. split.
+  { intros x I. rewrite P in I. simpl in I. destruct I as [<-|[<-|[]]]; reflexivity. }
+  rewrite P. vm_compute. repeat (constructor; [simpl; intuition discriminate|]). constructor.
+Qed.
+
+(* the theorem applied to this instance; and the runs themselves *)
+Example exact_reproduces_example :
+  (* the build set up app, lib, extra at 1.0 *)
+  map (fun n => option_map String.string_of_list_ascii (setup_version (s_env rstb) (lit n))) ["app"; "lib"; "extra"]%string
+    = [Some "1.0"; Some "1.0"; Some "1.0"]%string /\
+  shown (pins_of rout) = [("lib", "1.0", false); ("extra", "1.0", true)]%string /\
+  (* the replay through Model/Setup.v, decisions forced by the exact block: lib 1.0 although 2.0 is current *)
+  (exists st',
+     setup rworld' ex_cfg 2 ex_st0 (forced_decisions (lit "1.0") (pins_of rout) [lit "implicitProducts"])
+           (lit "app") true 0 false = RDone true st' [] /\
+     map (fun n => option_map String.string_of_list_ascii (setup_version (s_env st') (lit n))) ["app"; "lib"; "extra"]%string
+       = [Some "1.0"; Some "1.0"; Some "1.0"]%string /\
+     (* the composed model on the later database, explicit versions on the lines of the exact block: the resolver
+        takes exactly the forced decisions and ends in the same state *)
+     request_full_simple rfw' ex_cfg default_config ex_flavors 20 ex_st0 (lit "app") (Some (lit "1.0")) true false
+       = Ok (Some st', forced_decisions (lit "1.0") (pins_of rout) [lit "implicitProducts"])) /\
+  (* the table as it was, in the later database: lib 2.0 *)
+  (exists st'' tr'',
+     request_full_simple rfw'' ex_cfg default_config ex_flavors 20 ex_st0 (lit "app") None true false = Ok (Some st'', tr'') /\
+     option_map String.string_of_list_ascii (setup_version (s_env st'') (lit "lib")) = Some "2.0"%string).
+Proof.
+  split; [vm_compute; reflexivity|]. split; [vm_compute; reflexivity|]. split.
+  - eexists. split; [vm_compute; reflexivity|]. split; vm_compute; reflexivity.
+  - eexists. eexists. split; vm_compute; reflexivity.
+Qed.
+
+(* the theorem applied to the instance *)
+Example exact_reproduces_applies :
+  exists st',
+    setup rworld' ex_cfg 2 ex_st0 (forced_decisions (lit "1.0") (pins_of rout) [lit "implicitProducts"])
+          (lit "app") true 0 false = RDone true st' [] /\
+    (forall k q, known rworld k -> k <> lit "app" -> find_setup_product rworld (s_env rstb) k = Some q ->
+       alookup (setup_var k) (s_env st') = Some (setup_string ex_cfg k (p_version q))) /\
+    (forall m, alookup (setup_var m) (s_env st') <> None -> upper_str m <> upper_str (lit "app") ->
+       exists n v, setup_var n = setup_var m /\ recorded (s_env rstb) n v /\
+                   alookup (setup_var m) (s_env st') = Some (setup_string ex_cfg n v)).
+Proof.
+  destruct exact_reproduces_inhabited
+    as [H1 [H2 [H3 [H4 [H5 [H6 [H7 [H8 [H9 [H10 [H11 [H12 [H13 [[ptop [H15 H16]] [H17 [H18 [H19 [H20 H21]]]]]]]]]]]]]]]]]].
+  destruct (exact_reproduces vcmp_simple vmatch_simple rfw ex_cfg default_config ex_flavors (dl_of rworld) (rank_of rorder)
+              ex_vro (lit "app") None rD 20 ex_st0 rstb rtr false rraw rlines rout rworld' ex_cfg rinterp ptop (lit "1.0")
+              [lit "implicitProducts"] 2 ex_st0
+              H1 H2 H3 H4 H5 H6 H7 H8 H9 H10 H11 H12 H13 eq_refl H15 H16 H17 H18 H19 H20 H21 (fun m => eq_refl) (le_n 2))
+    as [_ [st' [R [_ [A B]]]]].
+  exists st'. split; [exact R|]. split; [exact A|exact B].
+Qed.
